@@ -16,6 +16,7 @@ int g_diag;
 
 #ifdef V_STUB_BUG_UNREACHABLE
 /* contract: bug()/assertion failure must not be reachable from the harness */
+#ifndef V_STUB_KEEP_REAL_BUG   /* (when util.c is linked, its own bug() is used: it aborts) */
 void bug(String fmt, ...)
 {
 #ifdef NATIVE_REPLAY
@@ -25,6 +26,7 @@ void bug(String fmt, ...)
 	__CPROVER_assume(0);
 #endif
 }
+#endif
 void _do_assert(char *str, char *file, int line)
 {
 #ifdef NATIVE_REPLAY
@@ -58,6 +60,19 @@ void _do_assert(char *str, char *file, int line)
 }
 #endif
 
+#if defined(V_STUB_CTYPE_C_LOCALE) && !defined(NATIVE_REPLAY)
+/* <ctype.h> in the "C" locale, by range arithmetic.  CBMC 6.11's built-in models are imprecise outside the
+ * letters (its tolower(16) is 32), which produced a false alarm; the native replay uses the real libc. */
+int (isdigit)(int c) { return c >= '0' && c <= '9'; }
+int (isalpha)(int c) { return (c >= 'A' && c <= 'Z') || (c >= 'a' && c <= 'z'); }
+int (isupper)(int c) { return c >= 'A' && c <= 'Z'; }
+int (islower)(int c) { return c >= 'a' && c <= 'z'; }
+int (isalnum)(int c) { return (c >= '0' && c <= '9') || (c >= 'A' && c <= 'Z') || (c >= 'a' && c <= 'z'); }
+int (isspace)(int c) { return c == ' ' || (c >= 9 && c <= 13); }
+int (tolower)(int c) { return (c >= 'A' && c <= 'Z') ? c + ('a' - 'A') : c; }
+int (toupper)(int c) { return (c >= 'a' && c <= 'z') ? c - ('a' - 'A') : c; }
+#endif
+
 #ifdef V_STUB_STO
 /* allocator stub: fresh, non-NULL, suitably sized memory (that IS property C10's
  * claim; assumed here).  stoFree is a no-op so that use-after-free inside the
@@ -65,6 +80,11 @@ void _do_assert(char *str, char *file, int line)
  * only when the unit itself calls free(). */
 MostAlignedType *stoAlloc(unsigned code, ULong size)
 {
+#ifdef V_STO_MIN_SIZE
+	/* struct-hack nodes: hand out at least a whole union so that CBMC's whole-object dereference check of
+	 * `*node` has no false alarm; at-least-as-large is what the allocator promises anyway (C10) */
+	if (size < (V_STO_MIN_SIZE)) size = (V_STO_MIN_SIZE);
+#endif
 	void *p = malloc(size ? size : 1);
 #ifndef NATIVE_REPLAY
 	__CPROVER_assume(p != 0);
